@@ -43,6 +43,7 @@ type Features struct {
 	ValidateChildren bool            // reject a manifest whose blobs/child manifests are missing
 	ChunkMin         int             // OCI-Chunk-Min-Length announced on POST
 	EmptyRange00     bool            // report an empty session as "Range: 0-0" like docker/distribution
+	CatalogPage      int             // repositories per catalog page when the client does not ask (0 = all)
 	TagHidden        map[string]bool // tags left out of listings AFTER the page was cut (pages may be short or empty yet linked)
 }
 
@@ -211,7 +212,7 @@ func (r *Registry) catalog(req *http.Request) *http.Response {
 		names = append(names, k)
 	}
 	sort.Strings(names)
-	names, link := page(names, req, "/v2/_catalog", 0)
+	names, link := page(names, req, "/v2/_catalog", r.F.CatalogPage)
 	b, _ := json.Marshal(map[string]any{"repositories": names})
 	h := map[string]string{"Content-Type": "application/json"}
 	if link != "" {
